@@ -16,8 +16,11 @@ EXPLANATION = (
     "size guards, OR-merge under an equal-size guard); create, executed for every requested size 0..200, "
     "yields a zeroed buffer of whole 32-byte blocks described exactly by num_bytes/num_blocks; insert "
     "writes and check reads all 8 words of the block; every typed insert reaches insert_hash and the early "
-    "exits of insert_hash/check_hash coincide; XXH64 consumes its input in the reference schedule for every "
-    "length 0..200; (6) constants and shapes equal the Parquet "
+    "exits of insert_hash/check_hash coincide; carquet_xxhash64, executed abstractly with opaque input bytes and "
+    "seed for every length 0..72 (0..160 thorough), returns a term whose canonical form equals that of the XXH64 "
+    "specification written over the same bytes (a differing formula needs an input on which both evaluate "
+    "differently to count as a violation; when the term cannot be extracted the rule falls back to the constant "
+    "fingerprint and the consumption schedule for lengths 0..200); (6) constants and shapes equal the Parquet "
     "split-block Bloom filter specification (SALT words, 8 words per 32-byte block, bit from the "
     "top 5 bits of salt*key, key = low 32 bits, block index = ((h>>32)*n)>>32) and XXH64's "
     "prime/rotation/shift constants (call-site-expanded (operator, constant) fingerprint); (7) no byte "
@@ -335,8 +338,16 @@ def run(ctx):
     ctx.floor("C20 merge scenarios", nmg, 8)
     sbbf.bulk_store_rules(ctx)
 
-    # ---- (6b) XXH64 constants
+    # ---- (6a) XXH64 as a formula: decisive whenever the function can be executed abstractly
     xf = P.fn("carquet_xxhash64", XX)
+    from ..rules import xxh
+    verdict = xxh.check(ctx, xf, list(range(0, ctx.depth(73, 161))))
+    ctx.count("xxh64_formula_verdict_" + verdict, 1)
+    if verdict in ("same", "witness"):
+        # the constant census and the consumption schedule below are necessary conditions of the formula
+        # just compared; they only run when the formula could not be extracted
+        return
+    # ---- (6b) XXH64 constants
     fp = const_fingerprint(P, xf)
     fpu = Counter()
     for (op, v), n in fp.items():
